@@ -173,3 +173,11 @@ Print Assumptions C08_hyps_clean_run.
 Theorem C08_wait_count_const : barrier_wait_count = 3%N.
 Proof. reflexivity. Qed.
 Print Assumptions C08_wait_count_const.
+
+(** The same for the full log, which since hook H5 also contains the barrier
+    waits performed by the guard while a thread unwinds. *)
+Theorem C08_log_sb_model_full : forall c n,
+  (forall r, ssize c r = n) -> 1 <= nthreads c -> fixed_code c ->
+  forall tr, log_sb (nthreads c) n (events_full c (init c) tr) = true.
+Proof. exact log_sb_model_full. Qed.
+Print Assumptions C08_log_sb_model_full.
